@@ -143,3 +143,5 @@ m("C16", ["R41"], TR, "    x + x * (x2 * polynomial!(x2, SIN_COEFFS))", "    x +
 m("C16", ["R41"], TR, "    x + x * (x2 * polynomial!(x2, TAN_COEFFS))", "    x + x * polynomial!(x2, TAN_COEFFS)", "re-ordered tangent kernel loses the x^2 factor", on="Z0-6")
 m("C14", ["R35"], EX, "return x * f64::from_bits(1u64 << (y + 1074));", "return x * f64::from_bits(1u64 << (y + 1075));", "mul_pow2 subnormal branch scales by 2^(y+1) (the scaling rule evaluates the helper for every exponent with the word symbolic)")
 m("C14", ["R35"], EX, "return x * f64::from_bits(((y + 1023) as u64) << 52);", "return x * f64::from_bits(((y + 1022) as u64) << 52);", "mul_pow2 normal branch uses the wrong exponent bias")
+m("C07", ["R17"], B, "self.hi.is_finite() && self.lo.is_finite() && no_overlap(self.hi, self.lo)", "self.hi.abs() <= f64::INFINITY && self.lo.is_finite() && no_overlap(self.hi, self.lo)", "is_finite re-spelled as |x| <= inf (true for infinities; |x| < inf is the accepted spelling)")
+m("C06", ["R12d"], SG, "self.hi.is_sign_positive()", "self.hi >= 0.0", "sign bit re-spelled as a comparison with zero (differs for -0.0)")
